@@ -35,7 +35,7 @@ class World:
         self.cw = ClassWorld([repo.mod(EXPR), repo.mod(ARRAY), repo.mod(CONS)])
         g = self.cw.genv
         g["Op"] = Tag("Op")
-        g["flatten_iterator"] = self.flatten
+        # flatten_iterator: the repository's own generator function, evaluated from source
         for n in ("count_true", "fold_or", "fold_and", "alldifferent", "cond", "then"):
             if n in g:
                 g["cspuz.constraints." + n] = g[n]
